@@ -157,6 +157,9 @@ func (fr *Frame) evalCall(st *State, call *ast.CallExpr, nWant int) []*Term {
 			return nil
 		}
 		key := funcKey(fn)
+		if rs, ok := fr.streamBuiltin(st, key, call, sig); ok {
+			return rs
+		}
 		recv, args := fr.evalRecvArgs(st, call, fn, sig)
 		if fc := e.cs.Funcs[key]; fc != nil && !(fr.top.fc == fc) && !(fc.Options["inline"] != "" && e.funcs[key] != nil) {
 			return fr.applyContract(st, fc, fn, sig, recv, args, call)
@@ -178,6 +181,11 @@ func (fr *Frame) evalCall(st *State, call *ast.CallExpr, nWant int) []*Term {
 	if selx, ok := call.Fun.(*ast.SelectorExpr); ok {
 		if sel := info.Selections[selx]; sel != nil && sel.Kind() == types.MethodVal {
 			m := sel.Obj().(*types.Func)
+			if typeName(sel.Recv()) == "io.Reader" && m.Name() == "Read" {
+				if rs, ok := fr.streamBuiltin(st, "io.Reader.Read", call, sig); ok {
+					return rs
+				}
+			}
 			recvLoc := fr.evalLocOrTemp(st, selx.X)
 			// walk embedded path to the interface value
 			idx := sel.Index()
@@ -578,7 +586,15 @@ func (fr *Frame) evalBuiltin(st *State, call *ast.CallExpr, name string) []*Term
 			st.Assume(Not(e.isNilMap(m)))
 			return []*Term{m}
 		case *types.Chan:
-			return []*Term{e.alloc(st, t, "chan")}
+			ch := e.alloc(st, t, "chan")
+			// ghost: buffer capacity of the new channel (0 when unbuffered)
+			capT := IntLit(0)
+			if len(call.Args) > 1 {
+				capT = fr.eval(st, call.Args[1])
+			}
+			caps := e.Heap(st, "ghost:chanCap", ArrSort(IntSort, IntSort))
+			st.heap["ghost:chanCap"] = Store(caps, ch, capT)
+			return []*Term{ch}
 		}
 	case "delete":
 		mt := fr.info.TypeOf(call.Args[0]).Underlying().(*types.Map)
